@@ -13,50 +13,47 @@ variable {α : Type} [Zero α]
 /-- Direct extraction: for every recording, every spike inside it, every window length (odd or
 even, also longer than the recording) and every channel list with or without −1 entries, the
 extracted waveform is exactly the zero-padded window. -/
-theorem extract_eq_window (A : List (List α)) (nch : Nat) (hA : Rect A nch) (s : Int)
-    (hs0 : 0 ≤ s) (hs : s < A.length) (n : Nat) (hn : 0 < n) (ch : List Int) (hch : ChOK nch ch) :
+theorem extract_eq_window (A : List (List α)) (nch : Nat) (s : Int)
+    (hs0 : 0 ≤ s) (hs : s < A.length) (n : Nat) (ch : List Int) (hch : ChOK nch ch) :
     extractWaveform A s n ch = window A s n ch :=
-  Lemmas.extract_eq_window A nch hA s hs0 hs n hn ch hch
+  Lemmas.extract_eq_window A nch s hs0 hs n ch hch
 
 /-- Chunk-by-chunk iteration: whenever the reader's chunk intervals tile `[0, dur)` in order
 (the C16 theorems) and the spikes are sorted, the concatenated batches are exactly one window per
 spike, in spike order, each spike once — wherever spikes fall relative to chunk boundaries. -/
 theorem iter_concat_eq_map (A : List (List α)) (ivs : List (Nat × Nat))
     (hT : intervalsTile A.length ivs = true) (spikes : List Int) (chans : List (List Int))
-    (hlen : chans.length = spikes.length) (hsorted : spikes.Pairwise (· ≤ ·))
+    (hsorted : spikes.Pairwise (· ≤ ·))
     (hb : ∀ s ∈ spikes, 0 ≤ s ∧ s < A.length) (n : Nat) :
     (iterWaveforms A ivs spikes chans n).flatten =
       (spikes.zip chans).map fun sc => extractWaveform A sc.1 n sc.2 :=
-  Lemmas.iter_concat_eq_map A ivs hT spikes chans hlen hsorted hb n
+  Lemmas.iter_concat_eq_map A ivs hT spikes chans hsorted hb n
 
 /-- Export: the written file loads as an array of the declared shape
 `(n_spikes, n, n_channels_loc)` holding the windows times the unit factor, in spike order. -/
-theorem export_loads_windows (scale : α → α) (A : List (List α)) (nch : Nat) (hA : Rect A nch)
+theorem export_loads_windows (scale : α → α) (A : List (List α)) (nch : Nat)
     (ivs : List (Nat × Nat)) (hT : intervalsTile A.length ivs = true) (spikes : List Int)
     (chans : List (List Int)) (hlen : chans.length = spikes.length)
     (hsorted : spikes.Pairwise (· ≤ ·)) (hb : ∀ s ∈ spikes, 0 ≤ s ∧ s < A.length) (n : Nat)
-    (hn : 0 < n) (nloc : Nat) (hnl : 0 < nloc) (hch : ∀ c ∈ chans, c.length = nloc ∧ ChOK nch c) :
+    (nloc : Nat) (hch : ∀ c ∈ chans, c.length = nloc ∧ ChOK nch c) :
     npLoad (exportWaveforms scale A ivs spikes chans n nloc) =
       some ((spikes.zip chans).map fun sc => (window A sc.1 n sc.2).map fun row => row.map scale) :=
-  Lemmas.export_loads_windows scale A nch hA ivs hT spikes chans hlen hsorted hb n hn nloc hnl hch
+  Lemmas.export_loads_windows scale A nch ivs hT spikes chans hlen hsorted hb n nloc hch
 
 /-- Store lookup: for any query (any order, any subset of stored spikes), on every query channel
 that the store holds for that spike the result is the stored window column, i.e. the raw window
 on that channel; channels the store does not hold for the spike come back as zeros. -/
 theorem lookup_eq_window (st : Store α) (A : List (List α)) (samples : List Int) (n : Nat)
-    (hids : st.spikeIds.Nodup)
     (hl1 : st.spikeChannels.length = st.spikeIds.length) (hl2 : st.waveforms.length = st.spikeIds.length)
-    (hl3 : samples.length = st.spikeIds.length)
     (hstore : ∀ p, p < st.spikeIds.length →
       st.waveforms.getD p [] = window A (samples.getD p 0) n (st.spikeChannels.getD p []))
-    (hdist : ∀ ind ∈ st.spikeChannels, (ind.filter (· ≠ -1)).Nodup)
     (query : List Nat) (hq : ∀ q ∈ query, q ∈ st.spikeIds) (chq : List Nat) :
     getSpikeWaveforms st query chq n = some (query.map fun q =>
       let p := st.spikeIds.idxOf q
       (List.range n).map fun r => chq.map fun (c : Nat) =>
         if (st.spikeChannels.getD p []).contains (Int.ofNat c)
         then ((window A (samples.getD p 0) n [Int.ofNat c]).getD r []).getD 0 0 else 0) :=
-  Lemmas.lookup_eq_window st A samples n hids hl1 hl2 hl3 hstore hdist query hq chq
+  Lemmas.lookup_eq_window st A samples n hl1 hl2 hstore query hq chq
 
 /-! Non-vacuity (cells are integers) -/
 example : extractWaveform [[1, 2], [3, 4], [5, 6]] 1 8 [1, -1, 0] =
